@@ -122,6 +122,16 @@ theorem pinned_assign_reads_old_value_first :
       (.binary .addAssgn (.word [97]) (.unary .inc true (.word [97])))).2.get [97]) = [54] := by
   decide
 
+/-- The target of a plain `=` is never evaluated: `x='y++'; y=1; $((x = 5))` leaves y = 1, and
+    `x='1/0'; $((x = 7))` is 7 (the class of the seeded change C20-2). -/
+theorem pinned_plain_assign_does_not_read_target :
+    ((evalArith (envOf [(nx, [121, 43, 43]), (ny, [49])])
+      (.binary .assgn (.word nx) (.word [53]))).2.get ny) = [49] ∧
+    (evalArith (envOf [(nx, [49, 47, 48])]) (.binary .assgn (.word nx) (.word [55]))).1 = .ok 7 ∧
+    (specEval 100 bashMaxDepth (envOf [(nx, [49, 47, 48])])
+      (.binary .assgn (.word nx) (.word [55]))).1 = .ok 7 := by
+  decide
+
 /-! ## status -/
 
 /-- `(( e ))`: status 0 iff the expression evaluates, without error, to a non-zero value. -/
